@@ -9,6 +9,7 @@ import (
 	"encoding/json"
 	"fmt"
 	"os"
+	"path/filepath"
 	"strings"
 	"time"
 
@@ -42,6 +43,7 @@ type e1Scen struct {
 	Period  int    `json:"period,omitempty"`
 	Len     int    `json:"len,omitempty"`   // periodic / long: number of writes
 	Query   string `json:"query,omitempty"`
+	FaultAt int    `json:"fault_at,omitempty"` // mode "fault": index (1-based) of the rotation whose next segment file cannot be created
 	Shard   int    `json:"shard"`
 	Shards  int    `json:"shards"`
 	Name    string `json:"name"`
@@ -182,6 +184,36 @@ func (ws *wordState) preamble(r *e1run, k int, after func()) bool {
 	return true
 }
 
+// peek computes the unit a symbol would produce without advancing the word state.
+func (ws *wordState) peek(s sym) wunit {
+	c := *ws
+	c.last = append([]int64{}, ws.last...)
+	c.nextA = append([]int64{}, ws.nextA...)
+	c.begun = append([]bool{}, ws.begun...)
+	return c.unit(s)
+}
+
+// willRotate reports whether writing u will make the muxer rotate its segments (regular words only).
+func willRotate(r *e1run, u wunit) bool {
+	m := r.model
+	if u.Track != m.lead || !u.RA || !m.segOpen && !r.faulted {
+		return false
+	}
+	ls := r.mi.m.leadingStream
+	if ls.nextSegment == nil {
+		return false
+	}
+	var start time.Duration
+	switch sg := ls.nextSegment.(type) {
+	case *muxerSegmentFMP4:
+		start = sg.startDTS
+	case *muxerSegmentMPEGTS:
+		start = sg.startDTS
+	}
+	off := m.offset(u.Track)
+	return timestampToDuration(u.DTS+off, r.cfg.Tracks[u.Track].clock())-start >= time.Duration(r.cfg.SegMinMS)*time.Millisecond
+}
+
 const e1KnownWriteErr = "not received yet"
 
 // runWord executes one word; it returns the run and the index of the first failing symbol (-1 if none).
@@ -202,6 +234,9 @@ func e1RunWord(sc e1Scen, word []sym, scratch string, props map[string]bool, spa
 	defer r.mi.m.Close()
 	r.props = props
 	r.query = sc.Query
+	if h := e1Hooks[sc.Prop]; h != nil {
+		h(r)
+	}
 	if sc.Mode != "tree" {
 		r.fullFetch = false // listed URIs are re-fetched at ages 1, 2, 4, 8, ... observations instead of every time
 	}
@@ -228,7 +263,47 @@ func e1RunWord(sc e1Scen, word []sym, scratch string, props map[string]bool, spa
 			return r, -1, nil
 		}
 	}
+	if sc.Mode == "tree" && sc.Period == 1 && sc.Cfg.Tracks[0].video() {
+		// size trees: the stream is started by one key frame carrying the parameter sets
+		if r.apply(ws.unit(sym{T: 0, D: "f", K: "R"})) {
+			if r.sizeHook != nil {
+				r.sizeHook(r, true)
+			}
+			after()
+		}
+	}
+	rotations := 0
 	for i, s := range word {
+		if sc.Mode == "fault" {
+			// environment fault: the file of the next segment cannot be created at rotation number FaultAt
+			u := ws.peek(s)
+			if willRotate(r, u) {
+				rotations++
+				if rotations == sc.FaultAt {
+					ls := r.mi.m.leadingStream
+					blocker := filepath.Join(dir, segmentPath(ls.prefix, ls.id, ls.nextSegmentID+1, sc.Cfg.Variant != "mpegts"))
+					os.Mkdir(blocker, 0o755)
+					ok := r.apply(ws.unit(s))
+					os.Remove(blocker)
+					if ok {
+						r.add("ALL", "fault-not-hit", "the injected storage fault at rotation %d was not hit", rotations)
+					}
+					r.faulted = true
+					r.observe()
+					r.checkStep()
+					continue
+				}
+			}
+			if !r.apply(ws.unit(s)) && !r.faulted {
+				r.add("ALL", "write-error", "write %d (%s) failed: %s", r.writeErrAt, s, r.writeErr)
+				return r, i, nil
+			}
+			after()
+			if len(r.viols) > 0 {
+				break
+			}
+			continue
+		}
 		if !r.apply(ws.unit(s)) {
 			if !strings.Contains(r.writeErr, e1KnownWriteErr) && !strings.Contains(r.writeErr, "maximum segment size") {
 				r.add("ALL", "write-error", "write %d (%s) failed: %s; ops %s", r.writeErrAt, s, r.writeErr, r.opsString())
@@ -245,6 +320,9 @@ func e1RunWord(sc e1Scen, word []sym, scratch string, props map[string]bool, spa
 		if len(r.viols) > 0 {
 			break
 		}
+	}
+	if r.finalHook != nil {
+		r.finalHook(r)
 	}
 	return r, -1, nil
 }
@@ -393,7 +471,7 @@ func e1Explore(c *vh.Ctx, sc e1Scen) {
 				}
 			}
 		}
-	case "long":
+	case "long", "fault":
 		word := make([]sym, sc.Len)
 		for i := range word {
 			word[i] = sc.Alpha[i%len(sc.Alpha)]
